@@ -119,7 +119,8 @@ def gen_scenario(rng, idx):
             hist = [({"op": "randomize"} if op["op"] == "free" else op) for op in hist]
         ncalls = len(hist)
         return {"prog": prog, "hist": hist, "mode": mode, "seed": rng.randint(1, 1 << 30), "global_seed": rng.randint(1, 1 << 30),
-                "snapshot_at": rng.choice([0, 0, rng.randrange(ncalls)]), "kind": kind}
+                "snapshot_at": rng.choice([0, 0, rng.randrange(ncalls)]), "kind": kind,
+                "seed_str": rng.choice([None, "top.env.agent%d" % rng.randint(0, 9), "x"])}
     return None
 
 
